@@ -92,8 +92,12 @@ func genGenesis(t *rapid.T, pr *histProfile) hGenesis {
 	g.TxSigLimit = uint64(rapid.IntRange(1, 7).Draw(t, "siglimit"))
 	g.FeeDefault = rapid.SampledFrom([]int64{1, 1, 0, 2, 1000}).Draw(t, "feedefault")
 	if rapid.IntRange(0, 2).Draw(t, "feemulti") == 0 {
-		g.FeeMultis = []hFeeMulti{{Key: rapid.SampledFrom([]string{"send", "stake_validator", "unjail", "change_param", "test_award"}).Draw(t, "fmkey"),
-			Mult: rapid.SampledFrom([]int64{0, 3, 100}).Draw(t, "fmmult")}}
+		// 1-3 entries for distinct message types (InitGenesis refuses duplicates)
+		keys := rapid.Permutation([]string{"send", "stake_validator", "unjail", "change_param", "test_award", "begin_unstaking_validator", "dao_tranfer"}).Draw(t, "fmkeys")
+		n := rapid.IntRange(1, 3).Draw(t, "fmn")
+		for i := 0; i < n; i++ {
+			g.FeeMultis = append(g.FeeMultis, hFeeMulti{Key: keys[i], Mult: rapid.SampledFrom([]int64{0, 2, 3, 100}).Draw(t, "fmmult")})
+		}
 	}
 	no := rapid.IntRange(1, 3).Draw(t, "nowners")
 	for i := 0; i < no; i++ {
